@@ -22,7 +22,7 @@ pub struct Case {
 }
 
 const COUNTS: &[usize] = &[0, 1, 2, 3, 4, 5, 6, 8, 10, 12, 17, 21, 24, 33];
-const COUNTS_T: &[usize] = &[0, 1, 2, 3, 4, 5, 6, 8, 10, 12, 17, 21, 24, 33, 64, 100, 300];
+const COUNTS_T: &[usize] = &[0, 1, 2, 3, 4, 5, 6, 8, 10, 12, 17, 21, 24, 33, 64, 100];
 
 fn strat(tier: Tier) -> impl Strategy<Value = Case> {
     (
@@ -560,7 +560,7 @@ pub fn run(ctx: &Ctx, rep: &Report) -> Meta {
         }
     }
     let tier = ctx.tier;
-    run_cases(ctx, rep, "mutations", ctx.tier.pick(72, 600), 200, || strat(tier), |c| check(rep, "mutations", c));
+    run_cases(ctx, rep, "mutations", ctx.tier.pick(72, 320), 200, || strat(tier), |c| check(rep, "mutations", c));
     Meta {
         rule: "honest (suite, key, header, msgs, signature) then the mutation catalogue enumerated per case: message byte change (random octet; first / last octet, one octet shorter / longer, leading zero octet for the first, last and one random message) / delete / prefix at every position, near-equal messages (same length, one octet apart, 7 to 1000 octets) in one vector, long data (messages and headers of 300 octets to 256 KiB), header-length-sweep: every header length 0..=1100 (quick) / 2400 for L in {1, 3, 10, 17} with tail edits, \
                insert (random, empty, neighbour) at every position 0..=L, extension by 1..=3, swap and replace-by-other of every pair with different contents (all pairs for L<=12), \
